@@ -14,9 +14,9 @@ import json, os, time, collections, threading
 import vf
 
 ALL_KINDS = ["none", "sp", "sp2", "tab", "ff", "lf", "lf3", "blank", "crlf", "lcom", "trail", "ownlcom", "detach", "bcom",
-             "spbcom", "mlbcom", "bom", "eofcom"]
+             "spbcom", "mlbcom", "wsbcom", "bom", "eofcom"]
 CORE_KINDS = ["none", "sp", "lf", "blank", "trail", "ownlcom", "detach", "bcom", "mlbcom"]
-SKELS = ["void", "syn", "hdr", "order", "msg", "body", "enum", "copt", "coptml", "lit", "svc", "ed", "odd", "empty"]
+SKELS = ["void", "syn", "hdr", "order", "msg", "body", "enum", "copt", "coptml", "lit", "litsep", "grpsemi", "svc", "ed", "odd", "empty"]
 LIGHT_SKELS = ["order"]            # its point is the declaration order of the default layout
 LIGHT_KINDS = ["blank", "ownlcom", "trail"]
 
